@@ -201,6 +201,8 @@ type runner struct {
 	classes map[string]int
 	goViol  []string
 	nextVal int64
+	markers  map[int]int // series records written per series
+	restarts int
 	stopped bool // the implementation went somewhere the model does not follow: no further steps
 	// all timestamps ever acknowledged, per series (generator steering only)
 	acked map[int][]int64
@@ -274,6 +276,7 @@ func (r *runner) apply(o hop) bool {
 			if ref, ok := vAfter.ref[i]; ok {
 				if old, was := vBefore.ref[i]; !was || old != ref {
 					logged = append(logged, fmt.Sprintf("(%s, None)", gallina.Z(int64(i))))
+					r.markers[i]++
 					r.classes["series-created"]++
 				}
 			}
@@ -364,6 +367,19 @@ func (r *runner) apply(o hop) bool {
 		}
 		r.steps = append(r.steps, fmt.Sprintf("SOp %s %s", name, gObs(r.d, r.n)))
 	case opRestart:
+		// Not modelled (see notes): a second restart of a series that has several series records in the
+		// WAL (it was garbage collected and created again): which head chunk file entries Head.Init
+		// attaches to which record then depends on ref bookkeeping the model does not follow exactly.
+		if r.restarts > 0 {
+			for _, k := range r.markers {
+				if k >= 2 {
+					r.classes["stopped-second-restart-of-recreated-series"]++
+					r.stopped = true
+					return false
+				}
+			}
+		}
+		r.restarts++
 		before := view(r.d, r.n)
 		if err := r.d.Reopen(); err != nil {
 			r.goViol = append(r.goViol, fmt.Sprintf("Close/Open returned %v", err))
@@ -684,7 +700,7 @@ func main() {
 		if err != nil {
 			panic(err)
 		}
-		r := &runner{d: d, n: n, oooWin: win, classes: map[string]int{}, acked: map[int][]int64{}}
+		r := &runner{d: d, n: n, oooWin: win, classes: map[string]int{}, acked: map[int][]int64{}, markers: map[int]int{}}
 		defer func() { r.d.Close() }()
 		for k := 0; k < nops; k++ {
 			var o hop
